@@ -498,6 +498,8 @@ def check(prop, tier, seed, replay=None):
     new, known_seen, internal2, lines = handle_violations(prop, gate_sigs, replay_cmd, make_replay_for)
     internal += internal2
     known = load_known()
+    late_seen = [s for s in by_sig if (s.startswith("C09/validity/") or s.startswith("C09/behaviour/")) and match_known(prop, s, known)]
+    lines = [l for l in lines if not (l.startswith("KNOWN-FINDING") and "not reproduced" in l and any(("[%s]" % match_known(prop, s, known)["signature"]) in l for s in late_seen))]
     for s, v in by_sig.items():
         if not s.startswith("C09/validity/") and not s.startswith("C09/behaviour/"):
             continue
